@@ -443,9 +443,16 @@ class C03Prop(HistProp):
                     continue
                 got = {r[0]: f for r, f in zip(res[1], res[2])}
                 exp = {nodes[t]: d[idx[x]][t] for t in range(n) if d[idx[x]][t] is not None}
+                cut = ""
+                if len(op[2]) > 2 and op[2][2] >= 3 and exp:
+                    # cutoff = the median of the distinct distances: exactly the nodes within it are reported
+                    ds = sorted(set(exp.values()))
+                    dc = ds[len(ds) // 2]
+                    exp = {k: v for k, v in exp.items() if v <= dc}
+                    cut = ", cutoff=%s, with_paths=%s" % (float(dc), op[2][2] == 4)
                 if set(got) != set(exp) or any(Fraction(got[k]) != exp[k] for k in exp):
-                    msgs.append("distances from %d reported by single_source(weighted=%s) %s differ from those computed "
-                                "from get_all_edges() alone %s" % (x, weighted, sorted(got.items()),
+                    msgs.append("distances from %d reported by single_source(weighted=%s%s) %s differ from those computed "
+                                "from get_all_edges() alone %s" % (x, weighted, cut, sorted(got.items()),
                                                                    sorted((k, float(v)) for k, v in exp.items())))
             else:
                 if code != 0:
